@@ -50,23 +50,29 @@ type Config struct {
 	OffA     int    `json:"offA"` // virtual second at which the Rollout's finalising starts
 	OffB     int    `json:"offB"`
 	Eager    bool   `json:"eager"` // retry at every clock tick instead of after RecheckDuration
-	Solo     string `json:"solo"`  // "", "A" or "B": run only that Rollout (reference system)
+	// Mode "" = both Rollouts finalise their traffic routing; "route" = both apply a traffic step (DoTrafficRouting:
+	// the Lua runtime computes the canary Ingress annotations, A for 10 %, B for 90 %)
+	Mode string `json:"mode,omitempty"`
+	Solo string `json:"solo"` // "", "A" or "B": run only that Rollout (reference system)
 }
 
 type rolloutSpec struct {
 	Thread, NS, Name, UID, Svc, Ing string
 	Grace                           int32
 	Off                             int
+	Weight                          string // traffic step applied in mode "route"
+	route                           bool
 }
 
 func (c Config) rollouts() []rolloutSpec {
-	a := rolloutSpec{Thread: "A", NS: "ns-a", Name: "demo", UID: "uid-rollout-a", Svc: "echo", Ing: "echo", Grace: c.GraceA, Off: c.OffA}
-	b := rolloutSpec{Thread: "B", NS: "ns-b", Name: "demo", UID: "uid-rollout-b", Svc: "echo", Ing: "echo", Grace: c.GraceB, Off: c.OffB}
+	a := rolloutSpec{Thread: "A", NS: "ns-a", Name: "demo", UID: "uid-rollout-a", Svc: "echo", Ing: "echo", Grace: c.GraceA, Off: c.OffA, Weight: "10%"}
+	b := rolloutSpec{Thread: "B", NS: "ns-b", Name: "demo", UID: "uid-rollout-b", Svc: "echo", Ing: "echo", Grace: c.GraceB, Off: c.OffB, Weight: "90%"}
 	if c.Scenario == "same-ns" {
 		// one namespace, similar names. The network objects must be DISTINCT objects (two Rollouts on the very same
 		// Service are not "different workloads"), so the similar-name alphabet is used for them as well.
 		b.NS, b.Name, b.Svc, b.Ing = "ns-a", "demo-x", "echo-x", "echo-x"
 	}
+	a.route, b.route = c.Mode == "route", c.Mode == "route"
 	switch c.Solo {
 	case "A":
 		return []rolloutSpec{a}
@@ -103,6 +109,11 @@ func Configs(thorough bool) []Config {
 		add(sc, 1, 3, false)
 		add(sc, 0, 2, false)
 	}
+	// both Rollouts apply a traffic step: the shared Lua runtime computes each one's Ingress annotations
+	for _, sc := range []string{"two-ns", "same-ns"} {
+		out = append(out, Config{Scenario: sc, Mode: "route", GraceA: 1, GraceB: 1})
+		out = append(out, Config{Scenario: sc, Mode: "route", GraceA: 1, GraceB: 1, OffB: 1})
+	}
 	if thorough {
 		// the variant in which every clock tick wakes every waiting worker for free (a strictly larger bound-k set)
 		for _, sc := range []string{"two-ns", "same-ns"} {
@@ -114,6 +125,9 @@ func Configs(thorough bool) []Config {
 		c.ID = fmt.Sprintf("%s/g%d-%d/off%d-%d", c.Scenario, c.GraceA, c.GraceB, c.OffA, c.OffB)
 		if c.Eager {
 			c.ID += "/eager"
+		}
+		if c.Mode != "" {
+			c.ID = c.Mode + "/" + c.ID
 		}
 	}
 	return out
@@ -137,6 +151,11 @@ func MaxBound(thorough bool, c Config) int {
 		return false
 	}
 	switch {
+	case c.Mode == "route":
+		if thorough {
+			return 3
+		}
+		return 2
 	case !thorough && c.GraceA == 0 && c.Scenario == "two-ns" && in(c.OffA, 0, 4):
 		return 2
 	case !thorough || c.Eager:
@@ -385,6 +404,9 @@ func newWorld(cfg Config, ros []rolloutSpec) *world {
 // finalising (a fresh one per reconcile; LastUpdateTime is what the status would carry over)
 func newTRContext(ro rolloutSpec, lut *metav1.Time) *trafficrouting.TrafficRoutingContext {
 	w20 := "20%"
+	if ro.route {
+		w20 = ro.Weight
+	}
 	return &trafficrouting.TrafficRoutingContext{
 		Key:       fmt.Sprintf("Rollout(%s/%s)", ro.NS, ro.Name),
 		Namespace: ro.NS,
@@ -426,7 +448,13 @@ func (w *world) workerBody(ro rolloutSpec, cl client.Client) func() {
 		for i := 0; i < maxCallsPerRollout; i++ {
 			c := newTRContext(ro, lut)
 			atomic.AddInt64(&implCalls, 1)
-			done, err := m.FinalisingTrafficRouting(c)
+			var done bool
+			var err error
+			if ro.route {
+				done, err = m.DoTrafficRouting(c)
+			} else {
+				done, err = m.FinalisingTrafficRouting(c)
+			}
 			lut = c.LastUpdateTime
 			if err != nil {
 				ev("error: " + err.Error())
@@ -560,7 +588,7 @@ func newSystem(cfg Config, check func(s *system, x *sched.Execution)) *system {
 		vsync.PointHook, vsync.AcquireHook, vsync.ReleaseHook = sched.PointHook, sched.AcquireHook, sched.ReleaseHook
 	})
 	s := &system{cfg: cfg, states: map[uint64]struct{}{}}
-	s.ex = &sched.Explorer{MaxPoints: 600}
+	s.ex = &sched.Explorer{MaxPoints: 600, WarmUp: 2}
 	s.ex.Setup = func() []sched.ThreadSpec {
 		atomic.StoreInt64(&vnow, 0)
 		grace.ResetExpectations()
